@@ -204,6 +204,10 @@ def _cmp_reduced(ctx, key, what, out, ref, exact, u, scale):
         ctx.viol(key + '/clause=raises:%s@%s' % (out.type, out.func), '%s raised %r' % (what, out))
         return False
     if isinstance(out, torchtt.TT):
+        # reduce_dims (documented) removes EVERY mode of size one from the result of a partial reduction: a size-one mode that is still there is a summed mode that was kept
+        if len(out.N) > 1 and any(int(n_) == 1 and (not out.is_ttm or int(m_) == 1) for n_, m_ in zip(out.N, out.M if out.is_ttm else out.N)):
+            ctx.viol(key + '/clause=shape/size-one-mode-kept', '%s: result %s keeps a mode of size one (dense reduction: shape %s)' % (what, [int(n_) for n_ in out.N], list(ref.shape)))
+            return False
         try:
             got = dn.D(out)
         except ValueError as e:
